@@ -45,7 +45,10 @@ def native_check(kind, arch, env=None, seed=0):
         got = st.compute_exact_gradients(samples, space, barr) if kind != "positive" else st.compute_exact_gradients(samples, space)
     except Exception as e:
         return [("compute_exact_gradients raised", repr(e))]
-    h = 1e-6
+    # five-point stencil (truncation h^4, rounding eps/h): good to ~1e-10, so that deviations of the size of a stray
+    # 1e-8 regulariser are visible for pure states (the mixed-state gradient has a documented 1e-8 in its denominator)
+    h = 1e-3
+    tol = 2e-6 if kind == "mixed" else 2e-9
     for ni, net in enumerate(st.networks):
         rbm = getattr(st, net)
         k = 0
@@ -53,14 +56,14 @@ def native_check(kind, arch, env=None, seed=0):
             flat = p.data.view(-1)
             for j in range(flat.numel()):
                 old = float(flat[j])
-                flat[j] = old + h
-                fp = nll(st, kind, samples, bases, space, ud)
-                flat[j] = old - h
-                fm = nll(st, kind, samples, bases, space, ud)
+                vals = {}
+                for mlt in (2, 1, -1, -2):
+                    flat[j] = old + mlt * h
+                    vals[mlt] = nll(st, kind, samples, bases, space, ud)
                 flat[j] = old
-                fd = (fp - fm) / (2 * h)
+                fd = (-vals[2] + 8 * vals[1] - 8 * vals[-1] + vals[-2]) / (12 * h)
                 g = float(got[ni][k])
-                if abs(fd - g) > 2e-5 * (1 + abs(fd) + abs(g)):
+                if abs(fd - g) > tol * (1 + abs(fd) + abs(g)):
                     fails.append(("gradient entry %s.%s[%d] != dNLL (finite difference)" % (net, name, j), (g, fd)))
                 k += 1
     # order / grouping invariance of the positive phase
@@ -109,5 +112,5 @@ def bounded(tier, seed):
         if f:
             bad.append((kind, arch, f[:2]))
     return {"driver": "drivers/C03.native_check", "label": "bounded", "evaluations": n, "failures": len(bad),
-            "bound": "float64 central differences (h=1e-6, tol 2e-5) of the NLL for %d (state type, architecture) cases, one random dataset each" % len(cases),
+            "bound": "float64 five-point differences (h=1e-3, tol 2e-9 pure / 2e-6 mixed) of the NLL for %d (state type, architecture) cases, one random dataset each" % len(cases),
             "first_failures": bad[:3]}
